@@ -30,7 +30,7 @@ PREFIX = "; typed but not saved\n\n"
 
 
 def scope_files(c, ws, origin):
-    tree = c["files"][0]["tree"] if ws else c["files"][origin]["tree"]
+    tree = c["files"][wcommon.scope_root(c, ws, origin)]["tree"]
     return [i - 1 for i in sorted(tree)]
 
 
